@@ -209,6 +209,8 @@ structure PDGhost where
   judgeable : Bool := true
   /-- the layout of a QUICFrames builder (`none`: another builder) -/
   layout : Option (List QFrame) := none
+  /-- the configurations of a QUICRandomFrames / QUICMultiDatagramFrames builder (from the `pd new` op) -/
+  cfgs : List RFCfg := []
 
 structure St where
   src : List UInt8 := []
@@ -704,7 +706,8 @@ def step (s : St) (op impl : String) : St × StepOut :=
       let pd : PD := { fb := fb, cls := parseInts cls, maxSize := intOf maxSize, hdrLen := hl,
                        cs := { initial := true, buf := s.src } }
       let layout := match fb with | .frames qfs => some qfs | _ => none
-      ({ s with pd := some pd, dg := { written := s.src, layout := layout } },
+      let cfgs : List RFCfg := match fb with | .random c => [c] | .multi per => per | _ => []
+      ({ s with pd := some pd, dg := { written := s.src, layout := layout, cfgs := cfgs } },
        { model := s!"ok hl={hl}", tags := ["pd:new:" ++ kind] ++ (if (parseInts cls).isEmpty then [] else ["pd:cryptolength"]) })
   | ["pd", "lose", k] =>
     match s.pd with
@@ -772,13 +775,9 @@ def step (s : St) (op impl : String) : St × StepOut :=
           else if impl.startsWith "E:" then
             -- a failed PackCoalescedPacket closes the connection: legitimate only for a configuration
             -- outside the documented bounds or a failing random source
-            let cfgs : List RFCfg := match s.pd with
-              | some { fb := .random c, .. } => [c]
-              | some { fb := .multi per, .. } => per
-              | _ => []
             if impl == "E:reassemble" then
               fails := fails ++ [("pd_pack_error", "reassemble", "retransmission of non-adjacent CRYPTO ranges: MarshalInitialPacketPayload cannot reassemble them and the connection is closed")]
-            else if impl != "E:rand" && cfgs.all cfgInBounds then
+            else if impl != "E:rand" && dg.cfgs.all cfgInBounds then
               fails := fails ++ [("pd_pack_error", "-", impl)]
           -- nothing left to send: what was not lost must be everything written to the stream
           else if iw.headD "" == "none" && !isProbe && dg.judgeable && !dg.written.isEmpty then
